@@ -15,7 +15,7 @@ SHARDS = {"quick": 16, "thorough": 16}
 RULE = ("typed Sid (natural typing, 20% search values) x overlay of 1-3 pairs drawn from: existing key with valid / invalid / "
         "search value, next deeper key(s) of a longer type, a key two levels deeper (gap), key of another basetype, unknown key, "
         "'~'-prefixed variants, None (keyword form only; on present and absent keys); applied as Sid(s?q), get_with(query=q), "
-        "get_with(**kw) and get_with(key=,value=); compared with an independent decision table (vp.confmodel.apply_query). "
+        "get_with(**kw), get_with(key=,value=) and get_with(key=,value=,**kw); compared with an independent decision table (vp.confmodel.apply_query). "
         "non-trivial = overlay changes the key set, or number of fitting types != 1, or uses '~' / None; distinct = (uri, overlay, form)")
 ASSUMPTIONS = [
     "query values are non-empty and free of URL metacharacters (% + & = # ; ?) and whitespace",
@@ -92,9 +92,12 @@ def cases(draw):
     m = _model()
     t, f = draw(gens.typed_fields(m, search_p=0.2, wide=False))
     s = "/".join(f[k] for k in m.keys(t))
-    form = draw(st.sampled_from(["string", "get_with_query", "kwargs", "kwargs", "key_value"]))
-    n = 1 if form == "key_value" else draw(st.integers(1, 3))
-    pairs = [draw(pair(m, t, f, allow_none=form in ("kwargs", "key_value"))) for _ in range(n)]
+    form = draw(st.sampled_from(["string", "get_with_query", "kwargs", "kwargs", "key_value", "mixed"]))
+    n = 1 if form == "key_value" else draw(st.integers(2 if form == "mixed" else 1, 3))
+    pairs = [draw(pair(m, t, f, allow_none=form in ("kwargs", "key_value", "mixed"))) for _ in range(n)]
+    if form == "mixed":
+        # get_with(key=, value=, **kwargs): which one wins for a repeated name is not stated - names are kept distinct
+        pairs = [pairs[0]] + [p for p in pairs[1:] if p[0] != pairs[0][0]]
     use_uri = draw(st.booleans())
     # the library reads a '?' between two pairs like '&' (query_helper), and get_with documents a query "starting with ?"
     joins = [draw(st.sampled_from(["&", "&", "&", "&", "?"])) for _ in range(max(0, n - 1))]
@@ -188,6 +191,12 @@ def evaluate(case) -> Outcome:
             k, v, _ = pairs[0]
             ok, r = call(lambda: sid.get_with(key=k, value=v))
             what = f"{sid!r}.get_with(key={k!r}, value={v!r})"
+        elif form == "mixed":
+            k, v, _ = pairs[0]
+            rest = {kk: vv for kk, vv, _ in pairs[1:]}
+            ok, r = call(lambda: sid.get_with(key=k, value=v, **rest))
+            what = f"{sid!r}.get_with(key={k!r}, value={v!r}, **{rest!r})"
+            out.label("key-value-and-keywords")
         else:
             ok, r = call(lambda: sid.get_with(**kw))
             what = f"{sid!r}.get_with(**{kw!r})"
